@@ -193,7 +193,7 @@ def classify(prog, R, rule, fns, reviewed, skip=lambda s: False, auto=None):
             out_ = set()
             for c in cs:
                 cb_ = prog.body(c)
-                if c in want_ or depth >= 3 or cb_ is None or not str(cb_.vis).startswith("in ") or not callers.get(c):
+                if c in want_ or depth >= 3 or cb_ is None or str(cb_.vis) == "pub" or not callers.get(c):
                     out_.add(c)
                 else:
                     out_ |= _exp(callers.get(c, ()), depth + 1)
@@ -266,7 +266,7 @@ def classify(prog, R, rule, fns, reviewed, skip=lambda s: False, auto=None):
                 out_ = set()
                 for c in cs:
                     cb_ = prog.body(c)
-                    if c in want or depth >= 3 or cb_ is None or not str(cb_.vis).startswith("in ") or not callers.get(c):
+                    if c in want or depth >= 3 or cb_ is None or str(cb_.vis) == "pub" or not callers.get(c):
                         out_.add(c)
                     else:
                         out_ |= _expand(callers.get(c, ()), depth + 1)
